@@ -122,8 +122,9 @@ def builtin_syntax(g, mod, allow_bits=True, v1=False):
 def gen_type(g, mod):
     """a type assignment or TEXTUAL-CONVENTION, possibly derived from an earlier named type"""
     rng = g.rng
-    name = g.namer.upper(mod.tprefix)
-    named = [(m.name, t) for m in g.modules for t in g.types.get(m.name, [])]
+    name = g.uname(mod)
+    named = [(m.name, t) for m in g.modules for t in g.types.get(m.name, [])
+             if g.importable(mod, m.name, t.name)]
     parent = None
     if named and rng.random() < g.p.get('p_chain', 0.5):
         local = [(mn, t) for mn, t in named if mn == mod.name]
@@ -206,7 +207,8 @@ def gen_type(g, mod):
 
 def object_syntax(g, mod):
     rng = g.rng
-    named = [(m.name, t) for m in g.modules for t in g.types.get(m.name, [])]
+    named = [(m.name, t) for m in g.modules for t in g.types.get(m.name, [])
+             if g.importable(mod, m.name, t.name)]
     r = rng.random()
     if named and r < 0.45:
         pmod, t = rng.choice(named)
@@ -328,7 +330,8 @@ def maybe_defval(g, mod, d):
             d.defval = DefVal('bits', [b[0] for b in chosen], extra=dict(chosen))
     elif base == 'ObjectIdentifier':
         if 'defval_oid' in f:
-            keys = list(mod.node_keys) + [k for m in g.modules if m is not mod for k in m.node_keys]
+            keys = list(mod.node_keys) + [k for m in g.modules if m is not mod for k in m.node_keys
+                                          if g.importable(mod, k[0], k[1])]
             if keys:
                 key = rng.choice(keys)
                 if key[0] != mod.name:
